@@ -137,7 +137,7 @@ class HCreateSolution(Handler):
                 met = True
                 for s, (cval, num, den) in zip(solutes, pc):
                     got = R.concentration(res.contents, s, num, den)
-                    if abs(got - cval) > (1e-4 + 100 * R.cfg().q / max(cval, 1e-300)) * cval:
+                    if abs(got - cval) > (1e-4 + 100 * R.conc_quantum(cval) / max(cval, 1e-300)) * cval:
                         met = False
                 qv, qb = pq[0]
                 got = R.canon(solutes[0], res.contents.get(solutes[0], 0.0)) * R.per(solutes[0], qb)
@@ -177,13 +177,13 @@ class HCreateSolution(Handler):
         # concentration quanta q/c_i, and whichever rows are solved exactly the others are off by about that much
         overdet = 0.0
         if pc is not None and pq is not None and n >= 2:
-            overdet = 100 * sum(q / max(cv, 1e-300) for cv, _, _ in pc)
+            overdet = 100 * sum(R.conc_quantum(cv) / max(cv, 1e-300) for cv, _, _ in pc)
         if container_solvent:
             # observer quanta: the solvent container's effective molar mass and density are taken from its total
-            # moles rounded to q *mol* and its volume rounded to q *mL*
+            # moles and its volume, each kept to what the storage unit resolves
             mol_c = R.measure(solvent.contents, 'mol')
-            ml_c = R.measure(solvent.contents, 'L') * 1000
-            overdet += K * (q / max(mol_c, 1e-300) + q / max(ml_c, 1e-300))
+            l_c = R.measure(solvent.contents, 'L')
+            overdet += K * (q * cf.mol_prefix / max(mol_c, 1e-300) + q * cf.vol_prefix / max(l_c, 1e-300))
         # each stated concentration, in its own unit
         if pc is not None:
             for s, (cval, num, den), cstr in zip(solutes, pc, concs):
@@ -193,7 +193,7 @@ class HCreateSolution(Handler):
                               {'concentration': cstr, 'solute': s.name, 'result': F.snap_contents(res)})
                     continue
                 got = R.concentration(res.contents, s, num, den)
-                rel_tol = K * (q / cval + storage_rel) + 1e-8 + overdet
+                rel_tol = K * (R.conc_quantum(cval) / cval + storage_rel) + 1e-8 + overdet
                 ok = M.ratio('SOLN.conc', got, cval, rel_tol * cval)
                 if not ok and solvent_holds_solute:
                     # the stated concentration may be read as "of the solute added"; three-valued
@@ -336,12 +336,12 @@ class HCreateSolutionFrom(Handler):
                        'solvent': H1._short(solvent), 'quantity': quantity, 'new': F.snap_contents(new)})
             return
         bad = False
-        # observer quanta: the stock's (and a solvent container's) molarity is read through moles rounded to q *mol*
-        # and a volume rounded to q *mL*
+        # observer quanta: the stock's (and a solvent container's) molarity is read through its moles and its volume, each
+        # kept to what the storage unit resolves
         def obs_rel(c):
             mol_s = R.canon(solute, c.contents.get(solute, 0.0)) if not R.is_enzyme(solute) else 0.0
-            ml = R.measure(c.contents, 'L') * 1000
-            return (q / mol_s if mol_s > 0 else 0.0) + (q / ml if ml > 0 else 0.0)
+            lit = R.measure(c.contents, 'L')
+            return (q * cf.mol_prefix / mol_s if mol_s > 0 else 0.0) + (q * cf.vol_prefix / lit if lit > 0 else 0.0)
         rel_obs = K * (obs_rel(source) + (obs_rel(solvent) if container_solvent else 0.0))
         # total
         got_total = R.measure(new.contents, qb)
@@ -356,7 +356,7 @@ class HCreateSolutionFrom(Handler):
         if R.per(solute, num) != 0 and den != 'U' and cval > 0:
             got_c = R.concentration(new.contents, solute, num, den)
             amounts = [max(abs(x), q) for x in new.contents.values()] or [q]
-            rel_tol = K * (q / cval + sum(q / x for x in amounts) * 2) + 1e-6 + rel_obs
+            rel_tol = K * (R.conc_quantum(cval) / cval + sum(q / x for x in amounts) * 2) + 1e-6 + rel_obs
             if not M.ratio('FROM.conc', got_c, cval, rel_tol * cval):
                 bad = True
                 M.violate(['C12'], 'FROM', f'C12:concentration_not_met:{num}/{den}:q={qb}:{skind}',
